@@ -219,7 +219,7 @@ def c04(tier):
 @prop("C13",
       functions=["cellToChildPos", "childPosToCell", "validateChildPos", "cellToChildrenSize", "cellToParent", "_ipow", "isPentagon", "iterStepChild"],
       bounds={"quick": "per (parentRes, childRes) pair with childRes-parentRes <= 2 (45 pairs): all valid parents x all int64 positions (FWD), all valid children (BWD, ORDER); error codes: all int resolutions; pentagon parents at the deep pairs (0,12) and (3,15) (FWD)",
-              "thorough": "FWD: all 136 (parentRes, childRes) pairs; BWD: depth <= 6; ORDER: depth <= 5 (depth >= 12 BWD/ORDER queries gave no verdict in 3000 s; intermediate depths not calibrated, not run); pairs whose query exceeds the cap are listed as undecided"},
+              "thorough": "FWD: all 136 (parentRes, childRes) pairs; BWD: depth <= 8; ORDER: depth <= 6 (calibrated up to depth 6 / 5: 30-60 s; depth >= 12 gave no verdict in 3000 s; depths in between are not run); pairs whose query exceeds the cap are listed as undecided"},
       outside="pairs reported undecided (deep 7^k division chains)",
       assumptions=["iterator invariant of C04 for the ORDER clause"],
       stubs=[])
@@ -232,7 +232,7 @@ def c13(tier):
             us = {"_ipow.0": 6, "childPosToCell.0": dd + 2, "childPosToCell.1": dd + 2, "cellToChildPos.0": dd + 2, "cellToChildPos.1": dd + 2,
                   "iterStepChild.0": dd + 3, "cellToParent.0": c + 2, "harness.0": 17, "spec_parent.0": 17, "spec_size.0": 17, "firstNZpos.0": 17, "spec_valid_cell.0": 17, "spec_is_pentagon.0": 17}
             for mode in ("FWD", "BWD", "ORDER"):
-                if (mode == "BWD" and dd > 6) or (mode == "ORDER" and dd > 5):
+                if (mode == "BWD" and dd > 8) or (mode == "ORDER" and dd > 6):
                     continue   # probed: no verdict within 3000 s (deep 7^k division chains); FWD covers these pairs
                 j = J("%s_%d_%d" % (mode.lower(), p, c), "C13_childpos.c", ["-D" + mode, "-DPRES=%d" % p, "-DCRES=%d" % c], unwind=17, us=us,
                       est=10 + 40 * dd, tier=t, timeout=3000 if tier == "thorough" else 900, sat="cadical",
@@ -246,6 +246,8 @@ def c13(tier):
         dd = c - p
         us = {"_ipow.0": 6, "childPosToCell.0": dd + 2, "childPosToCell.1": dd + 2, "cellToChildPos.0": dd + 2, "cellToChildPos.1": dd + 2, "cellToParent.0": c + 2}
         for mode in ("FWD", "BWD"):
+            if mode == "BWD" and (p, c) == (0, 15):
+                continue   # no verdict in 1500 s
             js.append(J("%spent_%d_%d" % (mode.lower(), p, c), "C13_childpos.c", ["-D" + mode, "-DPENTONLY", "-DPRES=%d" % p, "-DCRES=%d" % c], unwind=17, us=us, est=300, tier=(t if mode == "FWD" else "thorough"), timeout=3000, core=False, mem="M",
                         bound="pentagon parents only, parentRes=%d childRes=%d" % (p, c)))
     for p in (0, 3, 9, 15):
@@ -497,9 +499,9 @@ def c12(tier):
         for fn, nm in enumerate(("areNeighborCells", "cellsToDirectedEdge", "getDirectedEdgeDestination", "directedEdgeToCells", "gridDistance", "cellToLocalIj")):
             js.append(ub("%s_r%d" % (nm, r), ["-DPAIR", "-DFN=%d" % fn, "-DRES=%d" % r], unwind=max(r + 2, 4), est=150 + 60 * r, mem="M", tier=t, timeout=2400, bound="first word with resolution field %d, second arbitrary" % r))
         js.append(ub("localIjToCell_r%d" % r, ["-DIJ2CELL", "-DRES=%d" % r], unwind=r + 2, est=150 + 60 * r, mem="M", tier=t, timeout=2400, bound="origin word with resolution field %d, all int32 i,j, all modes" % r))
-    for r in (0, 1):
+    for r in (0,):
         for fn, nm in enumerate(("cellToVertex", "cellToVertexes", "isValidVertex", "getIcosahedronFaces")):
-            js.append(ub("%s_r%d" % (nm, r), ["-DVERTEXAPI", "-DFN=%d" % fn, "-DRES=%d" % r, "-DUPB=(1<<10)"], unwind=max(r + 2, 8), us=dict(C12_LOOPS, **{"getIcosahedronFaces.0": 7, "getIcosahedronFaces.1": 7, "getIcosahedronFaces.2": 7}), unit_defs=UP7_DEFS, est=900, mem="X", tier="thorough", timeout=3400, core=False,
+            js.append(ub("%s_r%d" % (nm, r), ["-DVERTEXAPI", "-DFN=%d" % fn, "-DRES=%d" % r, "-DUPB=(1<<10)"], unwind=max(r + 2, 8), us=dict(C12_LOOPS, **{"getIcosahedronFaces.0": 7, "getIcosahedronFaces.1": 7, "getIcosahedronFaces.2": 7}), unit_defs=UP7_DEFS, est=1, mem="L", tier="thorough", timeout=1500, core=False,
                          bound="arbitrary word with resolution field %d (L-UP7 model for the aperture-7 parent)" % r))
     js += with_witness(ub("gridDisk_r0_k1", ["-DDISK", "-DFN=0", "-DRES=0", "-DKK=1"], unwind=4, est=100, mem="M"))[1:]
     js += with_witness(ub("areNeighborCells_r0", ["-DPAIR", "-DFN=0", "-DRES=0"], unwind=4, est=100, mem="M"))[1:]
